@@ -21,9 +21,20 @@ func normRow(s string) string {
 	return strings.Join(strings.Fields(s), " ")
 }
 
+// dropGetDest: for these functions the destination of decoded integers is not part of the comparison (it is a local, a
+// helper struct, ...); what is decoded from where, and what the checksum is compared with, still is.
+var dropGetDest = map[string]bool{"(*pogreb.segmentIterator).next": true}
+
 func compareLayoutNorm(r *Run, p *Program, rule, construct string, fn *ssa.Function, want []string, sym func(v ssa.Value) string) {
 	r.fn(funcKey(fn))
 	rows, und := extractLayout(fn, sym)
+	if dropGetDest[funcKey(fn)] {
+		for i := range rows {
+			if rows[i].Kind == "get" && !strings.Contains(rows[i].What, "crc32") {
+				rows[i].What = ""
+			}
+		}
+	}
 	for _, u := range und {
 		r.undecided(rule, construct, p.Pos(fn.Pos()), "layout not decidable: "+u)
 	}
@@ -96,7 +107,7 @@ var specEncodeRecord = []string{
 var specDecodeRecord = []string{
 	"read-into0 [0:]",
 	"get16 [0:2]",
-	"get32 [2:6] cmp:0,mask:2147483648",
+	"get32 [2:6]",
 	"copy-to0 [0:K+V+10] pogreb.segmentIterator.buf",
 	"read-into0 [6:K+V+10]",
 	"get32 [K+V+6:K+V+10] cmp:hash/crc32.ChecksumIEEE()",
@@ -154,31 +165,41 @@ func ruleRecordLayout(r *Run, p *Program, rule string) {
 	}
 	// decoder: the returned record type is Delete iff the bit was set
 	okDec := false
+	maskCond := func(c *Cond) bool {
+		eq, ok := c.holdsEq()
+		if !ok || eq {
+			return false
+		}
+		bo, isb := strip(c.X).(*ssa.BinOp)
+		if !isb || bo.Op != token.AND {
+			return false
+		}
+		m, ism := constInt(bo.Y)
+		z, isz := constInt(c.Y)
+		return ism && m == 1<<31 && isz && z == 0
+	}
 	for _, df := range deepFuncs(p, dec) {
 		df := df
 		instrsOf(df, func(in ssa.Instruction) {
-			dec := df
-			ph, ok := in.(*ssa.Phi)
-			if !ok || !strings.HasSuffix(typeName(ph.Type()), "recordType") || len(ph.Edges) != 2 {
-				return
-			}
-			// the edge with constant 1 must come from the block entered when (valueSize & 1<<31) != 0
-			for i, e := range ph.Edges {
-				if k, ok := constInt(e); ok && k == 1 {
-					pred := ph.Block().Preds[i]
-					okDec = blockEnteredOnlyUnder(dec, pred, func(c *Cond) bool {
-						eq, ok := c.holdsEq()
-						if !ok || eq {
-							return false
+			switch x := in.(type) {
+			case *ssa.Phi:
+				if !strings.HasSuffix(typeName(x.Type()), "recordType") || len(x.Edges) != 2 {
+					return
+				}
+				for i, e := range x.Edges {
+					if k, ok := constInt(e); ok && k == 1 {
+						pred := x.Block().Preds[i]
+						if blockEnteredOnlyUnder(df, pred, maskCond) {
+							okDec = true
 						}
-						bo, isb := strip(c.X).(*ssa.BinOp)
-						if !isb || bo.Op != token.AND {
-							return false
-						}
-						m, ism := constInt(bo.Y)
-						z, isz := constInt(c.Y)
-						return ism && m == 1<<31 && isz && z == 0
-					})
+					}
+				}
+			case *ssa.Store:
+				// a record-type field / variable set to Delete
+				if k, ok := constInt(x.Val); ok && k == 1 && strings.HasSuffix(typeName(x.Val.Type()), "recordType") {
+					if controlledBy(df, x, maskCond) {
+						okDec = true
+					}
 				}
 			}
 		})
@@ -587,7 +608,7 @@ func ruleC18Header(r *Run, p *Program, rule string) {
 			w.From()
 			okv := true
 			for _, ret := range returnsOf(f) {
-				if w.Visited[ret] && !isFailureReturn(f, ret) {
+				if w.succ(f, ret) {
 					okv = false
 				}
 			}
@@ -696,7 +717,7 @@ func ruleC18Names(r *Run, p *Program, rule string) {
 		}}
 		w.From()
 		for _, ret := range returnsOf(f) {
-			if w.Visited[ret] && !isFailureReturn(f, ret) {
+			if w.succ(f, ret) {
 				legacy = true
 			}
 		}
